@@ -1,14 +1,15 @@
 #!/bin/bash
-# confirms the two deliverables of a file-focused agent worktree: tools_confirm_files.sh F07
-# (the seed id is <property from meta.json>-m<agent number><1|2>)
+# confirms the two deliverables of a file-focused agent worktree: tools_confirm_files.sh F07 | G07
+# (the seed id is <property from meta.json>-<m for F, n for G><agent number><1|2>)
 cd /verif
 f=$1
-n=${f#F}
+n=${f:1}
+case ${f:0:1} in F) l=m;; G) l=n;; *) l=x;; esac
 for k in 1 2; do
   d=/tmp/wt/$f/seeded_out/$k
   if [ -f $d/patch.diff ]; then
     prop=$(python3 -c "import json;print(json.load(open('$d/meta.json'))['property'][:3])")
-    sid="$prop-m$n$k"
+    sid="$prop-$l$n$k"
     r=$(python3 tools_seed.py confirm /tmp/wt/$f $sid $k 2>&1 | tail -2 | tr '\n' ' ')
     echo "$f/$k -> $sid: $r"
   else echo "$f/$k missing"; fi
